@@ -23,7 +23,7 @@ open X86 X86.Generated
 macro "tie" : tactic =>
   `(tactic| ((try simp only [R.ext_obs_iff, Rust.opt_ext_obs_iff, Rust.res_ext_obs_iff, Rust.prod_ext_obs_iff,
                 Rust.unit_eq]) <;>
-             (repeat (first | src_unfold | ref_unfold | rust_obs_simp)) <;> bv_decide))
+             (repeat (first | src_unfold | ref_unfold | rust_obs_simp)) <;> bv_decide (config := { timeout := 120 })))
 
 /-- Compositional variant: unfold only the listed generated definitions, rewrite calls of other translated
 functions with their (already proved) tie theorems, then proceed as `tie`. Keeps the terms small: a chain of
@@ -39,6 +39,6 @@ macro_rules
                 Rust.unit_eq]) <;>
        (simp only [$us,*]) <;>
        (try simp (disch := tie_disch) only [$ls,*, R.bind_ok]) <;>
-       (repeat (first | ref_unfold | rust_obs_simp)) <;> bv_decide))
+       (repeat (first | ref_unfold | rust_obs_simp)) <;> bv_decide (config := { timeout := 120 })))
 
 end X86.SrcTie
